@@ -90,7 +90,8 @@ class TimedTask {
       return;
     }
     cancel();
-    while (impl_->inProgress.load(std::memory_order_acquire)) {
+    std::atomic_thread_fence(std::memory_order_seq_cst);
+    while (impl_->inProgress.load(std::memory_order_seq_cst)) {
     }
     // Now we can safely destroy the underlying function.  We do this here because we can't risk
     // that func may call code in it's destructor that may no longer be relevant after this
